@@ -1,4 +1,6 @@
 import NrDaemon.Gen.Decisions
+import NrDaemon.Gen.Negotiation
+import NrDaemon.Model.Limits
 import NrDaemon.Model.Proc
 import NrDaemon.Model.Trigger
 import NrDaemon.Model.Metrics
@@ -67,3 +69,58 @@ def MData.toGen (d : MData) : Gen.Decisions.MetricData :=
 theorem tied_aggregate (d s : MData) : Gen.Decisions.aggregate d.toGen s.toGen = (d.agg s).toGen := by
   simp only [Gen.Decisions.aggregate, MData.toGen, MData.agg]
   by_cases h1 : s.mn < d.mn <;> by_cases h2 : s.mx > d.mx <;> simp [h1, h2]
+
+/-! ### limit negotiation (`Gen/Negotiation.lean`, translated by the symbolic executor of the extractor) -/
+
+/-- the model's `getEventConfig` is the code's: same error condition, same limit, same period -/
+theorem tied_getEventConfig (raw : Option Int) (cr dl dr : Nat) :
+    match getEventConfig raw cr dl dr with
+    | none => (Gen.Negotiation.getEventConfig cr dl dr (raw.getD 0) raw.isSome).2.2 = true
+    | some c => Gen.Negotiation.getEventConfig cr dl dr (raw.getD 0) raw.isSome = (c.limit, (c.period : Int), false) := by
+  cases raw with
+  | none => simp [getEventConfig, Gen.Negotiation.getEventConfig]
+  | some l =>
+    simp only [getEventConfig, Gen.Negotiation.getEventConfig, Option.getD_some, Option.isSome_some, Bool.not_true,
+      Bool.false_eq_true, if_false]
+    by_cases h1 : l < 0
+    · simp [h1]
+    · by_cases h2 : l > (dl : Int) <;> simp [h1, h2]
+
+/-- the model's `newHarvestLimits` is `NewHarvestLimits` (agent limits present), and without agent limits the maxima -/
+theorem tied_newHarvestLimits (span log custom : Int) :
+    Gen.Negotiation.newHarvestLimits custom log span true =
+      ((newHarvestLimits span log custom).err.limit, (newHarvestLimits span log custom).txn.limit,
+       (newHarvestLimits span log custom).custom.limit, (newHarvestLimits span log custom).span.limit,
+       (newHarvestLimits span log custom).log.limit) ∧
+    Gen.Negotiation.newHarvestLimits custom log span false =
+      ((MaxErrorEvents : Int), (MaxTxnEvents : Int), (MaxCustomMaxEvents : Int), (MaxSpanMaxEvents : Int), (MaxLogMaxEvents : Int)) := by
+  constructor
+  · simp only [Gen.Negotiation.newHarvestLimits, newHarvestLimits, MaxErrorEvents, MaxTxnEvents, MaxCustomMaxEvents,
+      MaxSpanMaxEvents, MaxLogMaxEvents, if_true]
+    by_cases h1 : span < 10000 <;> by_cases h2 : span ≥ 0 <;> by_cases h3 : log < 20000 <;> by_cases h4 : log ≥ 0 <;>
+    by_cases h5 : custom < 100000 <;> by_cases h6 : custom ≥ 0 <;> simp [h1, h2, h3, h4, h5, h6]
+  · simp [Gen.Negotiation.newHarvestLimits, MaxErrorEvents, MaxTxnEvents, MaxCustomMaxEvents, MaxSpanMaxEvents, MaxLogMaxEvents]
+
+/-- the model's `checkReportPeriod` is the code's -/
+theorem tied_checkReportPeriod (period dflt : Nat) :
+    ((checkReportPeriod period dflt : Nat) : Int) = Gen.Negotiation.checkReportPeriod (dflt : Int) (period : Int) := by
+  simp only [checkReportPeriod, Gen.Negotiation.checkReportPeriod]
+  by_cases h : period = 0
+  · simp [h]
+  · have : ¬ ((period : Int) = 0) := fun e => h (by omega)
+    simp [h, this]
+
+/-- the model's `finalLogLimit` is `processLogEventLimits` (all three pointers non-nil), and a nil pointer leaves the
+collector's limit untouched -/
+theorem tied_processLogEventLimits (agent collectorLimit : Int) (collectorPeriod : Nat) :
+    Gen.Negotiation.processLogEventLimits true true collectorLimit (collectorPeriod : Int) true agent =
+      finalLogLimit agent collectorLimit collectorPeriod ∧
+    (∀ a b c : Bool, (a && b && c) = false →
+      Gen.Negotiation.processLogEventLimits a b collectorLimit (collectorPeriod : Int) c agent = collectorLimit) := by
+  constructor
+  · simp only [Gen.Negotiation.processLogEventLimits, finalLogLimit, scaledAgentLogLimit, DefaultReportPeriod,
+      Bool.not_true, Bool.false_eq_true, if_false]
+    by_cases h1 : (agent * (collectorPeriod : Int)).tdiv (60000000000 : Int) ≥ 0 <;>
+    by_cases h2 : (agent * (collectorPeriod : Int)).tdiv (60000000000 : Int) < collectorLimit <;> simp [h1, h2]
+  · intro a b c h
+    cases a <;> cases b <;> cases c <;> simp_all [Gen.Negotiation.processLogEventLimits]
